@@ -211,10 +211,33 @@ func init() {
 				} `json:"dontcare"`
 			}
 			readSpec(c, "failpoints.json", &spec)
+			// a site inside a helper of the state machine belongs to the clause(s) on whose paths the walker met it
+			walked := map[*handlerSite]map[string]bool{}
+			for _, cx := range m.Contexts {
+				for _, p := range m.Paths[cx.Name] {
+					if p.State == "<prologue>" {
+						continue
+					}
+					for _, h := range p.Handlers {
+						if h.Site == nil || h.Site.Caller == m.An.fn {
+							continue
+						}
+						if walked[h.Site] == nil {
+							walked[h.Site] = map[string]bool{}
+						}
+						walked[h.Site][m.An.groupOf(p.State)] = true
+					}
+				}
+			}
 			whereOf := func(st *handlerSite) string {
 				if st.Caller == m.An.fn {
 					// position of the call inside the switch
 					return m.An.groupAt(st.Call.Pos())
+				}
+				if gs := walked[st]; len(gs) == 1 {
+					for g := range gs {
+						return g
+					}
 				}
 				return "host-parsers"
 			}
